@@ -350,11 +350,12 @@ func (t *Topic) registerSession(msg *ClientComMessage) {
 				pluginTopic(t, plgActCreate)
 			}
 		} else {
-			if len(t.sessions) == 0 && t.cat != types.TopicCatSys {
-				// Failed to subscribe, the topic is still inactive
-				t.killTimer.Reset(idleMasterTopicTimeout)
-			}
 			logs.Warn.Printf("topic[%s] subscription failed %v, sid=%s", t.name, err, msg.sess.sid)
+		}
+		if len(t.sessions) == 0 && t.cat != types.TopicCatSys {
+			// Failed to subscribe or subscribed without joining (the mode has no J, the session
+			// is not attached): the topic is still inactive.
+			t.killTimer.Reset(idleMasterTopicTimeout)
 		}
 	}
 	if msg.sess.inflightReqs != nil {
